@@ -101,6 +101,69 @@ theorem t2T_ends (fr : List K) (k : ℕ) (l : K) (h : fr[k]? = some l) :
     t2T fr k 0 = some (fr.take k).sum ∧ t2T fr k 1 = some ((fr.take k).sum + l) := by
   unfold t2T; simp [h, psum_eq_sum, add_comm]
 
+/-- prefix sums of non-negative lengths are monotone -/
+theorem take_sum_mono (fr : List K) (hnn : ∀ l ∈ fr, 0 ≤ l) (i j : ℕ) (hij : i ≤ j) :
+    (fr.take i).sum ≤ (fr.take j).sum := by
+  induction j with
+  | zero => simp at hij; subst hij; exact le_refl _
+  | succ j ih =>
+    rcases Nat.lt_or_ge i (j + 1) with h | h
+    · have h1 := ih (by omega)
+      by_cases hj : j < fr.length
+      · rw [List.sum_take_succ fr j hj]
+        have : 0 ≤ fr[j] := hnn _ (List.getElem_mem hj)
+        linarith
+      · have e1 : fr.take (j + 1) = fr := List.take_of_length_le (by omega)
+        have e2 : fr.take j = fr := List.take_of_length_le (by omega)
+        rw [e1]; rw [e2] at h1; exact h1
+    · have : i = j + 1 := by omega
+      subst this; exact le_refl _
+
+/-- **`T2t` inverts `t2T`** on every segment of positive length: for `0 < t ≤ 1` the path parameter
+`T = t2T(k, t)` (strictly inside `(0,1)`) is mapped back to exactly `(k, t)` — so `Path.point(T)` evaluates segment
+`k` at `t` (`pointIdx_eq_T2t`).  This is the coherence `path.point(T) = seg.point(t)` that C11 needs for the entries
+of `Path.intersect`. -/
+theorem T2t_t2T (fr : List K) (hnn : ∀ l ∈ fr, 0 ≤ l) (hsum : fr.sum = 1) (k : ℕ) (l t T : K)
+    (hk : fr[k]? = some l) (hl : 0 < l) (ht0 : 0 < t) (ht1 : t ≤ 1) (hT : t2T fr k t = some T)
+    (hT0 : 0 < T) (hT1 : T < 1) : T2t fr T = some (k, t) := by
+  have hTe : T = (fr.take k).sum + l * t := by
+    unfold t2T at hT
+    simp only [hk, psum_eq_sum, Option.some.injEq] at hT
+    rw [← hT]; ring
+  obtain ⟨k', t', l', e1, e2, e3, e4, e5, e6, e7, e8⟩ := T2t_spec fr T hnn hsum hT0 hT1
+  have hklen : k < fr.length := by
+    by_contra hcon
+    rw [List.getElem?_eq_none (by omega)] at hk; simp at hk
+  have hk'len : k' < fr.length := by
+    by_contra hcon
+    rw [List.getElem?_eq_none (by omega)] at e2; simp at e2
+  have hlk : fr[k] = l := by
+    rw [List.getElem?_eq_getElem hklen] at hk; simpa using hk
+  have hlk' : fr[k'] = l' := by
+    rw [List.getElem?_eq_getElem hk'len] at e2; simpa using e2
+  have lo : (fr.take k).sum < T := by rw [hTe]; nlinarith
+  have hi : T ≤ (fr.take k).sum + l := by rw [hTe]; nlinarith
+  have hkk : k' = k := by
+    rcases Nat.lt_trichotomy k' k with h | h | h
+    · exfalso
+      have := take_sum_mono fr hnn (k' + 1) k (by omega)
+      rw [List.sum_take_succ fr k' hk'len, hlk'] at this
+      linarith
+    · exact h
+    · exfalso
+      have := take_sum_mono fr hnn (k + 1) k' (by omega)
+      rw [List.sum_take_succ fr k hklen, hlk] at this
+      linarith
+  subst hkk
+  have hll : l' = l := by rw [← hlk', ← hlk]
+  subst hll
+  have ht : t' = t := by
+    unfold t2T at e8
+    simp only [e2, psum_eq_sum, Option.some.injEq] at e8
+    have : l' * t' = l' * t := by rw [hTe] at e8; linarith
+    exact mul_left_cancel₀ e3.ne' this
+  rw [e1, ht]
+
 /-- `_calc_lengths`: the cached fractions are non-negative and sum to 1 when the total is
 positive -/
 theorem calcLengths_fractions (lens : List K) (hnn : ∀ l ∈ lens, 0 ≤ l) (hpos : 0 < lens.sum) :
